@@ -218,6 +218,18 @@ def run_random(pid, name, rc, runs, steps, seed, workdir, preds, kind="managed")
     p = subprocess.run([MH, "urandom" if kind == "unmanaged" else "random", "--cfg", rcf, "--runs", str(runs), "--seed", str(seed), "--steps", str(steps),
                         "--trace", trace, "--obs", obs], capture_output=True, text=True)
     if p.returncode != 0:
+        # The driver died.  If the code under test took the process down (a panic in a destructor while another
+        # panic unwinds), some single run reproduces it: that run is the finding, the rest of the batch is dropped.
+        sub = "urandom" if kind == "unmanaged" else "random"
+        for r_ in range(runs):
+            q = subprocess.run([MH, sub, "--cfg", rcf, "--runs", "1", "--start", str(r_), "--seed", str(seed), "--steps", str(steps),
+                                "--trace", trace + ".one", "--obs", obs + ".one"], capture_output=True, text=True)
+            if q.returncode != 0:
+                log("[%s]   the process was aborted while executing random run %d of %s: %s" % (pid, r_, name, " ".join((q.stderr or "").split())[-300:]))
+                return {"config": "random:" + name, "kind": kind, "violated_run": None, "states": 0, "transitions": 1, "depth": 0, "tlc_s": 0,
+                        "actions_taken": {}, "runs": runs, "random_steps": 0, "hung": 0, "conform": 0, "nonconform": 0, "trace_events": 0,
+                        "first_divergences": [], "spec_violations_on_trace": [], "replay_s": round(time.time() - t0, 2), "obs_events": 0,
+                        "viol": {"process_abort": [(r_, 0)]}, "random": {"rc": rc, "seed": seed, "steps": steps, "pool": kind}, "case_samples": [[]]}
         sys.stderr.write(p.stdout[-2000:] + p.stderr[-4000:])
         raise ToolError("random driver failed on %s" % name)
     drv = json.loads(p.stdout.strip().splitlines()[-1])
@@ -370,7 +382,7 @@ def managed_check(pid, tier, seed):
                     print("TRACE-INVARIANT property=%s invariant=%s run=%s (not among the property's own invariants; the rest of the batch was not validated)"
                           % (pid, inv, run_), flush=True)
         for pred, where in info["viol"].items():
-            if pred in spec["preds"]:
+            if pred in spec["preds"] or pred == "process_abort":
                 for run, i in where:
                     violations.append((info["config"], pred, run, i))
     extra = {}
